@@ -461,7 +461,14 @@ func (rn *runner) exec(p *caseProg, emit bool) runResult {
 			break
 		}
 		if res.steps >= maxStepsCap {
-			o.Fail("no-termination", rn.k, "%d instructions executed under gas limit %d (price base %d)", res.steps, p.gasLimit, p.base)
+			// theorem `total`: at most (limit/base + 1) * (MaxInvocationStackSize + 1) + 2 instructions
+			bound := (float64(p.gasLimit)*float64(vm.ExecFeeFactorMultiplier)/float64(p.base)+1)*float64(vm.MaxInvocationStackSize+1) + 2
+			if p.gasLimit >= 0 && float64(res.steps) > bound {
+				o.Fail("no-termination", rn.k, "%d instructions executed under gas limit %d (price base %d)", res.steps, p.gasLimit, p.base)
+			} else if emit {
+				o.Count("cut:step-cap (gas limit allows more instructions than the harness executes)")
+			}
+			res.state = "CUT"
 			break
 		}
 		ctx := v.Context()
@@ -612,8 +619,8 @@ func (rn *runner) exec(p *caseProg, emit bool) runResult {
 			o.Fail("gas-over-limit", rn.k, "HALT with %d datoshi consumed, limit %d", v.GasConsumed(), v.GasLimit())
 		}
 	default:
-		res.state = st.String()
-		if res.steps < maxStepsCap {
+		if res.state != "CUT" {
+			res.state = st.String()
 			o.Fail("bad-final-state", rn.k, "run ended in state %s", st)
 		}
 	}
@@ -657,6 +664,9 @@ func faultClass(err error) string {
 // runWhole runs the same case with Run() (no stepping, no hook) and compares the outcome: the
 // property speaks about Run(), the stepping is only how the intermediate states are observed.
 func (rn *runner) runWhole(p *caseProg, stepped runResult) {
+	if stepped.state == "CUT" {
+		return // Run() would go on until the gas is used up
+	}
 	v := newVM(p, fixedWorld(p.scripts))
 	v.LoadScriptWithHash(p.scripts[0], scriptHash(0), callflag.All)
 	panicked := func() (pn bool) {
